@@ -400,7 +400,7 @@ def _jsonable(x):
 
 
 # properties whose module does not define matches_known() yet (being added); to be emptied
-KNOWN_TAG_ONLY_TRANSITIONAL = {"C11"}
+KNOWN_TAG_ONLY_TRANSITIONAL = set()
 
 
 def load_known(prop: str) -> list[dict]:
